@@ -78,9 +78,10 @@ def gen_masks(rng, m, n):
 
 # ------------------------------------------------------------------------------------------------
 _LONG_LIVED = {}
+_CIRCUITS = {}
 
 
-def run_engine(engine, circuit, m, n, masks, reuse=False, order=None):
+def run_engine(engine, circuit, m, n, masks, reuse=False, order=None, mask_with_n=True, configure=True):
     """All observable outputs of one engine on one circuit, as plain python data (or an error).
     reuse=True: the same engine object serves every case of the run (different circuits, sizes and photon
     numbers), and `order` lists the input states to submit (with repeats; a repeated state is submitted through
@@ -104,9 +105,17 @@ def run_engine(engine, circuit, m, n, masks, reuse=False, order=None):
     b = _LONG_LIVED.setdefault(engine, cls()) if reuse else cls()
     if engine == "MPS":
         b.set_cutoff(max(2, (n + 1) ** m))   # full bond dimension (the backend caps it at d^(m//2))
-    b.set_circuit(circuit)
-    if masks:
-        b.set_mask(masks, n)
+    if configure:
+        b.set_circuit(circuit)
+    if not configure:
+        pass        # same circuit and same mask as the previous case of this long-lived engine: only the inputs change
+    elif masks:
+        if mask_with_n:
+            b.set_mask(masks, n)
+        else:
+            b.set_mask(masks)      # the mask is instantiated for the photon number of each input
+    elif reuse:
+        b.clear_mask()
     seen = set()
     for s in (order or states):
         if reuse and tuple(s) in seen:
@@ -119,9 +128,11 @@ def run_engine(engine, circuit, m, n, masks, reuse=False, order=None):
         if not masks:
             out["amp"][tuple(s)] = [complex(b.prob_amplitude(pcvl.BasicState(t))) for t in states]
             out["prob"][tuple(s)] = [float(b.probability(pcvl.BasicState(t))) for t in states]
-            if n > 0:
-                other = [n - 1] + [0] * (m - 1)
-                out["cross"][tuple(s)] = complex(b.prob_amplitude(pcvl.BasicState(other)))
+            # outputs with another photon number (one more, one less): amplitude and probability must vanish
+            cross = [[n + 1] + [0] * (m - 1)] + ([[n - 1] + [0] * (m - 1)] if n > 0 else [])
+            out["cross"][tuple(s)] = max(
+                max(abs(complex(b.prob_amplitude(pcvl.BasicState(o)))), abs(float(b.probability(pcvl.BasicState(o)))))
+                for o in cross)
         out["dist"][tuple(s)] = [(tuple(k), float(v)) for k, v in b.prob_distribution().items()]
         out["allprob"][tuple(s)] = [float(x) for x in b.all_prob()]
         ev = b.evolve()
@@ -157,7 +168,7 @@ def compare(engine, obs, states, table, masked_rows, masks):
                     bad.append(("probability", f"{engine}.probability({t}) for input {s} = "
                                 f"{obs['prob'][tuple(s)][j]:.6g}, expected {exp_prob[j]:.6g}", {"s": s, "t": t}))
                     break
-            if tuple(s) in obs["cross"] and abs(obs["cross"][tuple(s)]) > 1e-12:
+            if tuple(s) in obs["cross"] and obs["cross"][tuple(s)] > 1e-12:
                 bad.append(("cross-photon-number", f"{engine}: non-zero amplitude between photon numbers", {"s": s}))
         if tuple(s) in obs["dist"]:
             # prob_distribution: a BSDistribution drops exact zeros; compare as a map over the kept states
@@ -215,7 +226,7 @@ def oracle_pamp(u, s, t):
     return numpy_perm(u[np.ix_(rows, cols)]) if rows else 1.0
 
 
-def one_case(chk, spec, n, engine, masks, reuse=False, order=None):
+def one_case(chk, spec, n, engine, masks, reuse=False, order=None, mask_with_n=True, configure=True):
     m = spec["m"]
     states = all_states(m, n)
     try:
@@ -245,11 +256,15 @@ def one_case(chk, spec, n, engine, masks, reuse=False, order=None):
             if len(r["states"]) < len(states):
                 chk.branch("mask-drops-states")
     try:
-        obs = run_engine(engine, circuit, m, n, masks, reuse=reuse, order=order)
+        if configure:
+            _CIRCUITS[engine] = circuit
+        obs = run_engine(engine, _CIRCUITS.get(engine, circuit) if not configure else circuit, m, n, masks, reuse=reuse, order=order,
+                         mask_with_n=mask_with_n, configure=configure)
     except Exception as e:
         sig = f"{engine}-raises-{type(e).__name__}" + ("-reused-instance" if reuse else "")
         return [("violation", sig, f"{engine} raised {type(e).__name__}: {str(e)[:150]} on a legal circuit/input",
-                 {"spec": spec, "n": n, "engine": engine, "masks": masks, "reuse": reuse, "order": order})]
+                 {"spec": spec, "n": n, "engine": engine, "masks": masks, "reuse": reuse, "order": order,
+                  "mask_with_n": mask_with_n})]
     bad = compare(engine, obs, states, table, masked_rows, masks)
     out = []
     for sig, what, det in bad:
@@ -262,7 +277,8 @@ def one_case(chk, spec, n, engine, masks, reuse=False, order=None):
             confirmed = core.close(expected_amp(oracle_pamp(u, s, t), s, t), expected_amp(table[i][j], s, t), 1e-7)
         kind = "violation" if confirmed else "broken"
         out.append((kind, f"{engine}-{sig}" + ("-reused-instance" if reuse else ""), what,
-                    {"spec": spec, "n": n, "engine": engine, "masks": masks, "reuse": reuse, "order": order, **det}))
+                    {"spec": spec, "n": n, "engine": engine, "masks": masks, "reuse": reuse, "order": order,
+                     "mask_with_n": mask_with_n, **det}))
     return out
 
 
@@ -284,7 +300,7 @@ def run(chk: core.Check):
                        "components below 1e-6 and renormalises (after every component in the step-by-step simulator); "
                        "amplitudes and probabilities from prob_amplitude/probability/prob_distribution/all_prob use 1e-9",
                        "native kernels of exqalibur are external: the model for them is the specification itself"]
-    chk.required_branches = ["mask", "mask-drops-states", "bunched-input", "reused-instance", "stepper-perm-not-involution", "engine:Naive", "engine:SLOS",
+    chk.required_branches = ["mask", "mask-drops-states", "bunched-input", "reused-instance", "reused-instance-mask-without-n", "reused-instance-mask-other-photon-number", "stepper-perm-not-involution", "engine:Naive", "engine:SLOS",
                              "engine:SLAP", "engine:MPS", "engine:Stepper"]
     chk.lean = core.LeanDriver("C02")
     rng = chk.rng
@@ -321,12 +337,26 @@ def run(chk: core.Check):
             rng.shuffle(order)
             order = order + [rng.choice(states) for _ in range(3)]
             rng.shuffle(order)
-            history.append((spec, n, engine, order))
-    for spec, n, engine, order in history:
-        handle(chk, spec, n, engine, [], reuse=True, order=order)
+            # a third of the time the long-lived engine also carries a mask given WITHOUT a photon number: it must
+            # be instantiated afresh for each input's photon number
+            masks = gen_masks(rng, m, n) if (engine != "Stepper" and n > 0 and rng.random() < 0.35) else []
+            history.append((spec, n, engine, order, masks, True))
+            if masks:
+                # ... and then serves inputs of ANOTHER photon number with the same circuit and the same mask, with no
+                # set_circuit / set_mask in between
+                n2 = rng.choice([k for k in (1, 2, 3) if k != n])
+                order2 = all_states(m, n2)
+                rng.shuffle(order2)
+                history.append((spec, n2, engine, order2, masks, False))
+    for spec, n, engine, order, masks, configure in history:
+        if masks:
+            chk.branch("reused-instance-mask-without-n")
+        if not configure:
+            chk.branch("reused-instance-mask-other-photon-number")
+        handle(chk, spec, n, engine, masks, reuse=True, order=order, mask_with_n=False, configure=configure)
 
 
-def handle(chk, spec, n, engine, masks, reuse=False, order=None):
+def handle(chk, spec, n, engine, masks, reuse=False, order=None, mask_with_n=True, configure=True):
     m = spec["m"]
     chk.branch("engine:" + engine)
     if n >= 2:
@@ -336,7 +366,7 @@ def handle(chk, spec, n, engine, masks, reuse=False, order=None):
         chk.count("leaf_kind", leaf["t"])
     if reuse:
         chk.branch("reused-instance")
-    res = one_case(chk, spec, n, engine, masks, reuse=reuse, order=order)
+    res = one_case(chk, spec, n, engine, masks, reuse=reuse, order=order, mask_with_n=mask_with_n, configure=configure)
     if reuse and res:
         # the same case on a fresh object tells a history effect from a plain wrong amplitude (both are violations)
         fresh = one_case(chk, spec, n, engine, masks)
